@@ -77,11 +77,14 @@ def run(ctx):
         ctx.validate("Prop_C13", sig=sig, distinct=distinct)
         return ctx.finish(rule="replay")
     # thorough: the small configuration with per-action coverage (vacuity report), the big one without (coverage halves TLC's speed)
-    ctx.tlc_mc("MC_Salamander", "MC_Salamander.cfg", coverage=T)
+    ctx.tlc_mc("MC_Salamander", "MC_Salamander.cfg", coverage=T, workers=8)
     if T:
         ctx.tlc_mc("MC_Salamander", "MC_Salamander_big.cfg", timeout=1200)
-    for m in ("NoRMu", "NoWMu", "NoLk", "EarlyUnlock", "JunkReturn"):
-        ctx.tlc_mc("MC_Salamander", "MC_Salamander_mut%s.cfg" % m, expect_violation=True)
+    muts = ("NoRMu", "NoWMu", "NoLk", "EarlyUnlock", "JunkReturn")
+    if not T:   # quick: two of the model mutants (rotating with the seed); thorough: all of them
+        muts = [muts[ctx.seed % len(muts)], muts[(ctx.seed + 2) % len(muts)]]
+    for m in muts:
+        ctx.tlc_mc("MC_Salamander", "MC_Salamander_mut%s.cfg" % m, expect_violation=True, workers=4)
     scns = ctx.tlc_gen("MC_Salamander", "Gen_Salamander.cfg", num=1500 if T else 150, depth=200)
     ctx.write_scenarios("salamander", scns)
     ctx.go_test("extras", "./obfs/", "TestVerif_C13$", ["harness/extras/obfs/c13_test.go"])
